@@ -896,12 +896,34 @@ fn check_program(ops: &[Op], targets: &[Target], obs: &mut Obs, what: &str) {
                 gdef_ignores_negative_globaldefs: true,
             };
             let built_dev = build(ops, targets, dev);
-            if built_dev.models_disagree.is_none() && compare(&built_dev, &o).is_none() {
-                obs.known(
-                    "C01-gdef-ignores-negative-globaldefs",
-                    json!({"program": built.text, "output": o.out, "true_model_mismatch": mismatch}),
-                );
-                return;
+            if built_dev.models_disagree.is_none() {
+                match compare(&built_dev, &o) {
+                    None => {
+                        obs.known(
+                            "C01-gdef-ignores-negative-globaldefs",
+                            json!({"program": built.text, "output": o.out, "true_model_mismatch": mismatch}),
+                        );
+                        return;
+                    }
+                    Some((sig_dev, mismatch_dev)) => {
+                        // Neither model explains the run. Report the mismatch that remains
+                        // once the listed deviation is accounted for (it explains more of the
+                        // run when it fails later than the true model does).
+                        let pos = |m: &serde_json::Value| {
+                            m["read"].as_u64().unwrap_or(u64::MAX)
+                        };
+                        if pos(&mismatch_dev) >= pos(&mismatch) {
+                            obs.violation(
+                                sig_dev,
+                                json!({"program": built.text, "what": what, "output": o.out,
+                                       "mismatch": mismatch_dev,
+                                       "note": "compared against the deviation model of C01-gdef-ignores-negative-globaldefs, whose trigger is present",
+                                       "true_model_mismatch": mismatch}),
+                            );
+                            return;
+                        }
+                    }
+                }
             }
         }
         obs.violation(
